@@ -50,6 +50,7 @@ type (
 		All  bool
 		Vars []SVar
 		Body SExpr
+		Trig []SExpr // optional explicit trigger: forall i int :: {t1, t2} body
 	}
 	SCond struct{ C, A, B SExpr }
 )
@@ -76,7 +77,7 @@ type stok struct {
 
 var specOps = []string{
 	"<==>", "==>", "===", "!==", "::", "&&", "||", "==", "!=", "<=", ">=", "<<", ">>", "&^",
-	"+", "-", "*", "/", "%", "<", ">", "!", "(", ")", "[", "]", ",", ".", ":", "?", "&", "|", "^",
+	"+", "-", "*", "/", "%", "<", ">", "!", "(", ")", "[", "]", ",", ".", ":", "?", "&", "|", "^", "{", "}",
 }
 
 func lexSpec(s string) ([]stok, error) {
@@ -342,8 +343,18 @@ func (p *sparser) primary() SExpr {
 				}
 				p.expect(",")
 			}
+			var trig []SExpr
+			if p.accept("{") {
+				for {
+					trig = append(trig, p.expr())
+					if p.accept("}") {
+						break
+					}
+					p.expect(",")
+				}
+			}
 			body := p.expr()
-			return &SQuant{All: t.text == "forall", Vars: vars, Body: body}
+			return &SQuant{All: t.text == "forall", Vars: vars, Body: body, Trig: trig}
 		}
 		return &SIdent{t.text}
 	case "op":
